@@ -1,6 +1,7 @@
 SPECIFICATION Spec
 CONSTANTS MaxLen = 14
 EmitMod = 1
+Prefix <- PrefixNone
 Emit = TRUE
 Vocab <- VocabSim
 INVARIANTS TypeOK EmitCase
